@@ -5,6 +5,7 @@ import (
 	"fmt"
 	"sort"
 	"strings"
+	"syscall"
 	"time"
 )
 
@@ -71,6 +72,7 @@ type wgSt struct {
 
 type proc struct {
 	killed    bool // terminated by Process.Kill before it exited by itself
+	hasPipe   bool // holds a stdin pipe (counted in openPipes until the process is gone)
 	inv       *Invocation
 	started   bool
 	closed    bool // stdin closed
@@ -124,6 +126,7 @@ type Kernel struct {
 	sems      map[uint64]*semSt
 	objIDs    map[uint64]int
 	procs     []*proc
+	openPipes int
 	running   int
 	events    eventHeap
 	evSeq     int
@@ -429,6 +432,24 @@ func (k *Kernel) handle(t *task, r *Req) {
 		k.doProcStdin(t, r)
 	case OpProcKill:
 		k.doProcKill(t, r)
+	case OpPipeOpen:
+		// Descriptors are bounded (RLIMIT_NOFILE); the model scales the bound with the machine: a
+		// program whose open pipes grow with its input rather than with the CPUs runs into it.
+		limit := 8*k.cfg.CPUs + 32
+		if r.A < 0 {
+			if k.openPipes > 0 {
+				k.openPipes-- // a pipe given up without a process
+			}
+		} else if k.openPipes >= limit {
+			t.pending = Rep{Status: int64(syscall.EMFILE)}
+			k.probe("pipe_limit_hit")
+		} else {
+			k.openPipes++
+			if k.openPipes > k.res.MaxOpenPipes {
+				k.res.MaxOpenPipes = k.openPipes
+			}
+		}
+		k.trace(t, r.Op, fmt.Sprintf("open=%d st=%d", k.openPipes, t.pending.Status))
 	case OpProcWait:
 		k.doProcWait(t, r)
 	default:
